@@ -366,9 +366,45 @@ func (c *Ctx) builtin(fr *Frame, st *State, reach string, b *ssa.Builtin, com *s
 				c.assume(reach, fmt.Sprintf("(= %s (bvadd %s %s))", n.Len, s.Len, a1.Len))
 			}
 		}
-		// append may write into spare capacity of the old array or a new one: element memory of that type is havocked
+		// append may write into spare capacity of the old array or a new one: element memory of that type is havocked;
+		// for scalar element types the CONTENTS OF THE RESULT are then pinned: the old elements followed by the new ones
+		pfx := typeKey(s.Elem)
+		srt, scalar := scalarSort(s.Elem)
+		oldMem := ""
+		if scalar {
+			oldMem = c.memGet(st, pfx, srt)
+		}
 		c.havocMemOfElem(st, s.Elem)
-		c.notes["append(contents untracked)"]++
+		if scalar && len(args) > 1 {
+			newMem := st.mem[pfx]
+			q := func(body func(j string) string) {
+				c.n++
+				j := fmt.Sprintf("aj_%d", c.n)
+				b := body(j)
+				full := fmt.Sprintf("(forall ((%s %s)) (! %s :pattern ((select (select %s %s) (bvadd %s %s)))))", j, BV64, b, newMem, n.Arr, n.Off, j)
+				c.registerForall(full, []string{j}, []string{BV64}, b)
+				c.assume(reach, full)
+				c.quantified = true
+			}
+			q(func(j string) string {
+				return fmt.Sprintf("(=> (and (bvsle %s %s) (bvslt %s %s)) (= (select (select %s %s) (bvadd %s %s)) (select (select %s %s) (bvadd %s %s))))", i64(0), j, j, s.Len, newMem, n.Arr, n.Off, j, oldMem, s.Arr, s.Off, j)
+			})
+			switch a1 := args[1].(type) {
+			case SliceV:
+				q(func(j string) string {
+					return fmt.Sprintf("(=> (and (bvsle %s %s) (bvslt %s %s)) (= (select (select %s %s) (bvadd (bvadd %s %s) %s)) (select (select %s %s) (bvadd %s %s))))", i64(0), j, j, a1.Len, newMem, n.Arr, n.Off, s.Len, j, oldMem, a1.Arr, a1.Off, j)
+				})
+			case StrV:
+				if pfx == "uint8" {
+					q(func(j string) string {
+						return fmt.Sprintf("(=> (and (bvsle %s %s) (bvslt %s %s)) (= (select (select %s %s) (bvadd (bvadd %s %s) %s)) (select %s (bvadd %s %s))))", i64(0), j, j, a1.Len, newMem, n.Arr, n.Off, s.Len, j, a1.Data, a1.Off, j)
+					})
+				}
+			}
+			c.notes["append(result contents quantified)"]++
+		} else {
+			c.notes["append(contents untracked)"]++
+		}
 		return n
 	case "panic":
 		kind := "panic"
@@ -675,6 +711,7 @@ type modLoc struct {
 	elem   types.Type
 	stream string // reader ref
 	all    bool
+	memAll types.Type // memall(s): every array of s's element type (a callee that may reallocate: append-like dependencies)
 	streamId string // streamid(r): identity (sid) and length (lim) of the stream behind reader r (bufio.Reader.Reset)
 	streams bool   // "streams": position/peeked/fault of every reader (a function that resets or creates pooled readers)
 	foreign string // "foreign": every component that does not belong to this package (types/unexported variables of the package are encapsulated)
@@ -707,6 +744,13 @@ func (c *Ctx) resolveMod(env *CEnv, m Clause) modLoc {
 					cerr("mem() of non-slice")
 				}
 				return modLoc{memId: s.Arr, elem: s.Elem}
+			case "memall":
+				v := c.evalExpr(env, e.Args[0])
+				sv, ok := v.V.(SliceV)
+				if !ok {
+					cerr("memall() of non-slice")
+				}
+				return modLoc{memAll: sv.Elem}
 			case "stream":
 				return modLoc{stream: c.streamRef(env, c.evalExpr(env, e.Args[0]))}
 			case "streamid":
@@ -851,6 +895,8 @@ func (c *Ctx) havocLoc(st *State, l modLoc, reach string) {
 	switch {
 	case l.all:
 		c.havocAll(st, reach)
+	case l.memAll != nil:
+		c.havocMemOfElem(st, l.memAll)
 	case l.foreign != "":
 		c.havocForeign(st, l.foreign, reach)
 	case l.streams:
